@@ -37,6 +37,10 @@ func vLogInfo(client trillian.TrillianLogClient, signer crypto.Signer, ts util.T
 }
 
 // vServe drives one request through the real AppHandler for the named endpoint.
+// vContentType, when set, is the Content-Type header of the requests vServe builds (the handlers never look at it: what they
+// answer must not depend on it).
+var vContentType string
+
 func vServe(li *logInfo, ep string, method string, q url.Values, body string) *httptest.ResponseRecorder {
 	h := li.Handlers("test")["/test/ct/v1/"+ep]
 	u := "http://example.com/test/ct/v1/" + ep
@@ -48,6 +52,9 @@ func vServe(li *logInfo, ep string, method string, q url.Values, body string) *h
 		req = httptest.NewRequest(method, u, stringsReader(body))
 	} else {
 		req = httptest.NewRequest(method, u, nil)
+	}
+	if vContentType != "" {
+		req.Header.Set("Content-Type", vContentType)
 	}
 	w := httptest.NewRecorder()
 	h.ServeHTTP(w, req)
